@@ -663,8 +663,23 @@ def parse_instr(p, line):
         I.update(op='resume')
     elif op == 'fence':
         I.update(op='fence')
-    elif op in ('atomicrmw', 'cmpxchg'):
-        raise NotImplementedError(op)
+    elif op == 'cmpxchg':
+        while p.peek()[1] in ('weak', 'volatile'):
+            p.next()
+        pt = p.type(); pv = p.value(pt)
+        p.expect(',')
+        t = p.type(); cmpv = p.value(t)
+        p.expect(',')
+        t2 = p.type(); newv = p.value(t2)
+        I.update(ty=t, p=pv, cmp=cmpv, new=newv)
+    elif op == 'atomicrmw':
+        while p.peek()[1] == 'volatile':
+            p.next()
+        rop = p.next()[1]
+        pt = p.type(); pv = p.value(pt)
+        p.expect(',')
+        t = p.type(); v = p.value(t)
+        I.update(rmw=rop, ty=t, p=pv, v=v)
     else:
         raise NotImplementedError('instruction %r in %r' % (op, line))
     return I
@@ -1589,7 +1604,25 @@ class Emitter:
                                 self.adhoc_by_size.setdefault(N, st)
                     if I.get('typed_new') is None and I['callee'][1] == '_Znwm':
                         I['typed_new_size'] = N
+        # blocks reachable through normal control flow only: landing pads (exception unwinding) are not translated - a throw is a
+        # reported failure of the environment model (std::terminate in the real build when nothing catches), see env_cxx.c
+        normal = set()
+        work = [f.entry]
+        while work:
+            lb = work.pop()
+            if lb in normal or lb not in f.blocks:
+                continue
+            normal.add(lb)
+            for I in f.blocks[lb]:
+                if I['op'] == 'br':
+                    work.extend([I['dest']] if 'dest' in I else [I['t'], I['f']])
+                elif I['op'] == 'switch':
+                    work.extend([d for _, d in I['cases']] + [I['default']])
+                elif I['op'] == 'invoke':
+                    work.append(I['normal'])
         for lab, b in f.blocks.items():
+            if lab not in normal:
+                continue
             L.append('L_%s: ;' % san(lab))
             for I in b:
                 op = I['op']
@@ -1698,6 +1731,25 @@ class Emitter:
                         raise NotImplementedError('landingpad result used')
                 elif op == 'fence':
                     pass
+                elif op in ('cmpxchg', 'atomicrmw'):
+                    # sequentially consistent atomics: plain operations under the sequentialised execution (each is a visible step)
+                    pe = self.cv(PTR8, I['p'], ctx)
+                    if self.shared_yield and yield_cb:
+                        L.extend(yield_cb('shared'))
+                    if self.monitor and not self.is_local_ptr(I['p'], ctx):
+                        L.append('  IR2C_ACCESS(%s, %d, 1);' % (pe, self.m.size(I['ty'])))
+                    C = self.cbase(I['ty'])
+                    if op == 'cmpxchg':
+                        rt_ = Ty('struct', fields=[I['ty'], I1])
+                        r = declare(I, rt_)
+                        L.append('  %s.f0 = *(%s*)%s; %s.f1 = (u8)(%s.f0 == %s); if (%s.f1) *(%s*)%s = %s;' % (r, C, pe, r, r, self.cv(I['ty'], I['cmp'], ctx), r, C, pe, self.cv(I['ty'], I['new'], ctx)))
+                    else:
+                        r = declare(I, I['ty'])
+                        o = {'xchg': None, 'add': '+', 'sub': '-', 'and': '&', 'or': '|', 'xor': '^'}.get(I['rmw'], 'X')
+                        if o == 'X':
+                            raise NotImplementedError('atomicrmw ' + I['rmw'])
+                        v_ = self.cv(I['ty'], I['v'], ctx)
+                        L.append('  %s = *(%s*)%s; *(%s*)%s = (%s)(%s);' % (r, C, pe, C, pe, C, v_ if o is None else '%s %s %s' % (r, o, v_)))
                 else:
                     raise NotImplementedError(op)
         return L
